@@ -125,7 +125,7 @@ func runC10(c compCase, rec *stat.Rec) *stat.Failure {
 
 // drawTailData draws sources whose best match would run into the last 5 or 12 bytes.
 func drawTailData(t *rapid.T, maxLen int) gen.Data {
-	switch rapid.IntRange(0, 5).Draw(t, "tailkind") {
+	switch rapid.IntRange(0, 6).Draw(t, "tailkind") {
 	case 0:
 		return gen.Data{Segs: []gen.Seg{{K: "run", N: rapid.IntRange(0, 600).Draw(t, "n"), P: rapid.SampledFrom([]int{0, 'a'}).Draw(t, "b")}}}
 	case 1:
@@ -141,6 +141,12 @@ func drawTailData(t *rapid.T, maxLen int) gen.Data {
 	case 3:
 		n := rapid.IntRange(12, 40).Draw(t, "n")
 		return gen.Data{Segs: []gen.Seg{{K: "text", N: n, S: rapid.Uint64().Draw(t, "seed"), P: 2}}}
+	case 4:
+		// a repeat planted at the edge of the 64 KiB window (offsets 65534..65537 must come out as 1..65535 or not at all)
+		dist := rapid.SampledFrom([]int{65534, 65535, 65536, 65536, 65537}).Draw(t, "edge")
+		head := dist + rapid.IntRange(0, 40).Draw(t, "head+")
+		return gen.Data{Segs: []gen.Seg{{K: "rand", N: head, S: rapid.Uint64().Draw(t, "seed")}, {K: "copy", N: rapid.SampledFrom([]int{4, 8, 19, 300, 70000}).Draw(t, "copy"), P: dist, S: 1},
+			{K: "rand", N: rapid.IntRange(0, 30).Draw(t, "tail"), S: rapid.Uint64().Draw(t, "tailseed")}}}
 	default:
 		return gen.DrawData(t, maxLen, "src")
 	}
@@ -149,7 +155,7 @@ func drawTailData(t *rapid.T, maxLen int) gen.Data {
 func drawC10(t *rapid.T) compCase {
 	var c compCase
 	c.Comp = rapid.SampledFrom([]string{"fast-obj", "fast-pkg", "hc-obj", "hc-pkg"}).Draw(t, "comp")
-	c.Data = drawTailData(t, pick(64<<10, 1<<20))
+	c.Data = drawTailData(t, pick(256<<10, 1<<20))
 	if c.Comp[:2] == "hc" {
 		c.Depth = rapid.SampledFrom(hcDepths).Draw(t, "depth")
 		if n := c.Data.Len(); n > 4096 && effDepth(c.Depth)*n > pick(1<<25, 1<<28) {
@@ -202,7 +208,7 @@ func TestC10Pinned(t *testing.T) {
 func TestC10(t *testing.T) {
 	rec := stat.For("C10")
 	rec.SetRule(c10Rule)
-	rec.Require("nontrivial", "dst/below-bound(partial-success)", "last-match-ends-07-before-end", "last-match-ends-14-before-end", "comp/hc-depth0", "comp/fast")
+	rec.Require("nontrivial", "block/max-offset>=65000", "dst/below-bound(partial-success)", "last-match-ends-07-before-end", "last-match-ends-14-before-end", "comp/hc-depth0", "comp/fast")
 	checkProp(t, "C10", "C10/strict", pick(120000, 3000000), drawC10, runC10)
 }
 
